@@ -51,9 +51,14 @@ structure AggCfg where
   /-- `remap_value_type` uses a recorded replacement of a defined type directly, also when it is
   not a defined type (fix b2ae0a5; before: panic "expected a defined type") -/
   remapReplaced : Bool := true
+  /-- `merge_interface` also merges `type` exports of interface type recursively on a copy
+  (before: it kept the wider of the two, i.e. the supertype, and the merged import did not
+  satisfy the contributor with the narrower type) -/
+  typeMerge : Bool := true
 deriving Repr, Inhabited, DecidableEq
 
-def AggCfg.pinned : AggCfg := { nestedMerge := false, ownerSemver := false, remapReplaced := false }
+def AggCfg.pinned : AggCfg :=
+  { nestedMerge := false, ownerSemver := false, remapReplaced := false, typeMerge := false }
 def AggCfg.fixed : AggCfg := {}
 
 structure AggState where
@@ -433,8 +438,14 @@ def mergeInterface : Nat → Nat → Types → Nat → AggM Unit
       let cfg := (← get).cfg
       let skip ← match target with
         | some targetKind => do
-          match cfg.nestedMerge, targetKind, sourceKind with
-          | true, .instance t, .instance s =>
+          -- nested instances (and `type` exports of interface type) are merged, not chosen between
+          let nested : Option (Nat × Nat × (Nat → ItemKind)) := match targetKind, sourceKind with
+            | .instance t, .instance s => if cfg.nestedMerge then some (t, s, ItemKind.instance) else none
+            | .type (.interface t), .type (.interface s) =>
+              if cfg.typeMerge then some (t, s, fun i => ItemKind.type (.interface i)) else none
+            | _, _ => none
+          match nested with
+          | some (t, s, wrap) =>
             -- merge into a copy of the nested instance type, then point the export at the copy
             let copy ← match ag.types.interfaces[t]? with
               | none => apanic "interface index"
@@ -442,9 +453,9 @@ def mergeInterface : Nat → Nat → Types → Nat → AggM Unit
             let merged := ag.types.interfaces.length
             modifyTypes fun ty => { ty with interfaces := ty.interfaces ++ [copy] }
             withCtx s!"mismatched type for export `{strS name}`" (mergeInterface fuel merged types s)
-            modifyTypes fun ty => ty.setInterface existing fun i => { i with exports := amInsert i.exports name (.instance merged) }
+            modifyTypes fun ty => ty.setInterface existing fun i => { i with exports := amInsert i.exports name (wrap merged) }
             pure true
-          | _, _, _ =>
+          | none =>
           match ← chkSubtype types sourceKind ag.types targetKind with
           | .ok =>
             modifyAgg fun ag => { ag with remapped := alInsert ag.remapped (GTy.mk' types sourceKind.ty) targetKind.ty }
